@@ -37,6 +37,7 @@ HARNESSES = {
     'kb_lang_frag_any_utf8': {'kind': 'bounded', 'domain': 'every valid UTF-8 string of at most 5 bytes (fragmented packer)', 'timeout': 900, 'tier': 'quick'},
     'k_send_sync': {'kind': 'complete', 'domain': 'all W: Write + Send / Sync (rustc trait solver)', 'timeout': 300, 'tier': 'quick'},
     'k_aliases': {'kind': 'complete', 'domain': 'all arguments of the builder alias pairs', 'timeout': 300, 'tier': 'quick'},
+    'k_metadata_setters': {'kind': 'complete', 'domain': 'all u64 creation times (fixed title / language strings): MuxerBuilder::set_create_time / set_language after with_metadata', 'timeout': 900, 'tier': 'quick'},
     'k_build_audio_none': {'kind': 'complete', 'domain': 'all u32 sample rates and u16 channel counts: MuxerBuilder::build with audio codec None', 'timeout': 900, 'tier': 'quick'},
     'k_build_audio_opus': {'kind': 'complete', 'domain': 'all u32 sample rates and u16 channel counts: MuxerBuilder::build with Opus', 'timeout': 900, 'tier': 'quick'},
     'k_api_ticks_video': {'kind': 'complete', 'domain': 'all f64 bit patterns for pts and dts of the first frame, real Muxer::write_video_with_dts (VP9 keyframe)', 'timeout': 1800, 'tier': 'quick'},
